@@ -232,7 +232,10 @@ class Timeout(BaseException):
     pass
 
 
-def guarded(fn, seconds: float = 5.0, strict: bool = False):
+HANGS = [0]
+
+
+def guarded(fn, seconds: float = 1.5, strict: bool = False):
     """Runs fn() under settings.STRICT = strict; returns ('V', value) | ('E', class name, in_family) | ('HANG',)."""
     from pdfminer import settings
     from pdfminer.psexceptions import PSException
@@ -251,6 +254,7 @@ def guarded(fn, seconds: float = 5.0, strict: bool = False):
             signal.setitimer(signal.ITIMER_REAL, 0)
             signal.signal(signal.SIGALRM, old)
     except Timeout:
+        HANGS[0] += 1
         return ("HANG",)
     except RecursionError:
         return ("E", "RecursionError", False)
@@ -315,7 +319,11 @@ def run_model(ctx: C.Ctx) -> None:
     old_strict = settings.STRICT
     try:
         n_graphs = ctx.n(120, 4000)
+        HANGS[0] = 0
         for gi in range(n_graphs):
+            if HANGS[0] > 12:
+                ctx.notes.append("model correspondence cut short: more than 12 calls did not return within 1.5 s")
+                break
             g = gen_graph(rng)
             gj = {str(n): tok(v) for n, v in g.items()}
             doc = set_graph(g)
@@ -375,6 +383,8 @@ def run_model(ctx: C.Ctx) -> None:
             ctx.case(("gw", tok(("arr", seq))), any(v[0] == "arr" for v in seq))
 
         for gi in range(ctx.n(150, 5000)):
+            if HANGS[0] > 12:
+                break
             g, cat = gen_page_graph(rng)
             gj = {str(n): tok(v) for n, v in g.items()}
             doc = set_graph(g)
